@@ -3,6 +3,7 @@ package main
 import (
 	"fmt"
 	"hash/fnv"
+	"os"
 	"sync"
 	"sync/atomic"
 
@@ -187,6 +188,10 @@ func runTree(run *vl.Run, seeds []string, depth int, newUser func() interface{},
 	var jobs []job
 	for _, s := range seeds {
 		r := refchess.MustFEN(s)
+		if !r.Valid() {
+			fmt.Fprintln(os.Stderr, "harness error: seed is not a legal position:", s)
+			os.Exit(2)
+		}
 		jobs = append(jobs, job{s, -1})
 		if depth >= 1 {
 			for i := range r.LegalMoves() {
